@@ -30,8 +30,8 @@ CLAIMS = {
   technique="deterministic simulation with fault injection: single-fault enumeration and seeded multi-fault runs over release orders; fault-free-twin oracle and close accounting"),
  "C16": dict(
   level="exploration", ref="DESIGN.md §3.6",
-  text="The real cobra command runs at a simulated wall-clock instant (synctest fake clock) against the simulated daemon; the since/until of the ContainerLogs call - the only place the resolved range leaves the process - is compared with integer-nanosecond arithmetic over the generated flags, and malformed values or a non-positive step must fail before any log request. Only the facets that reach a seam are decided: the value of the default or an accepted step, and sub-second agreement of spellings, are not observable there and are not claimed.",
-  note="Trusted: Go's time formatting for the generated spellings; Prometheus duration syntax as generated (w,d,h,m,s,ms in descending order). Not decided: value of the default step max(1s, floor((end-start)/250) s), value of an accepted explicit step, sub-second equality of spellings.",
+  text="The real cobra command runs at a simulated wall-clock instant (synctest fake clock) against the simulated daemon; the since/until of the ContainerLogs call - the only place the resolved range leaves the process - is compared with integer-nanosecond arithmetic over the generated flags, malformed values or a non-positive step must be rejected, and an accepted explicit step must not be zero (a zero step turns a start == end query into an instant query whose look-back shows in since). Only the facets that reach a seam are decided: the value of the default step or of a non-zero accepted step, and sub-second agreement of spellings, are not observable there and are not claimed.",
+  note="Trusted: Go's time formatting for the generated spellings; Prometheus duration syntax as generated (w,d,h,m,s,ms in descending order). Not decided: value of the default step max(1s, floor((end-start)/250) s), value of a non-zero accepted explicit step, sub-second equality of spellings.",
   technique="deterministic simulation: real CLI under a simulated clock against a simulated daemon; arithmetic oracle on the recorded transport options"),
  "C18": dict(
   level="exploration", ref="DESIGN.md §3.7",
